@@ -1285,21 +1285,31 @@ fn many_distinct_tokens(ctx: &mut Ctx) {
     if ctx.take() {
         distinct_tokens_case(ctx, Algorithm::Patience, &req, &old, &new);
     }
-    // (c) a BIRTHDAY case: 240 000 distinct tokens per side, each of them an anchor that decides how its block is aligned
+    // (c) a BIRTHDAY case: 400 000 distinct tokens per side, each of them an anchor that decides how its block is aligned
     // (blocks `S_i U_i r r r` against `S_i r r r U_i`, as in the determinism suite). If tokens are identified by
     // anything narrower than the tokens themselves -- a 32-bit hash, a truncated fingerprint -- some two of them almost
-    // surely coincide (expected number of coinciding pairs at 32 bits: 240 000^2 / 2^33 = 6.7), both stop being unique,
+    // surely coincide (expected number of coinciding pairs at 32 bits: 400 000^2 / 2^33 = 18.6), both stop being unique,
     // their blocks are aligned differently, and the ops are no longer the ops of the token diff
     if !ctx.take() {
         return;
     }
-    let nb = 120_000usize;
-    let mut old = String::with_capacity(nb * 24);
-    let mut new = String::with_capacity(nb * 24);
+    // the tokens LOOK random (eleven pseudo-random letters and a hexadecimal counter): on regular tokens such as `S123`
+    // a simple multiplicative hash is nearly injective and nothing would coincide
+    let nb = 200_000usize;
+    let mut old = String::with_capacity(nb * 44);
+    let mut new = String::with_capacity(nb * 44);
+    let mut rng = Rng::new(0xb1d7);
+    let mut word = |rng: &mut Rng, i: usize| -> String {
+        let v = rng.next();
+        let mut w: String = (0..11).map(|k| (b'a' + ((v >> (5 * k)) & 31) as u8 % 26) as char).collect();
+        w.push_str(&format!("{:x}", i));
+        w
+    };
     for i in 0..nb {
         use std::fmt::Write;
-        let _ = write!(old, "S{}\nU{}\nr\nr\nr\n", i, i);
-        let _ = write!(new, "S{}\nr\nr\nr\nU{}\n", i, i);
+        let (sw, uw) = (word(&mut rng, 2 * i), word(&mut rng, 2 * i + 1));
+        let _ = write!(old, "{}\n{}\nr\nr\nr\n", sw, uw);
+        let _ = write!(new, "{}\nr\nr\nr\n{}\n", sw, uw);
     }
     let req = format!("text lines str patience - - | <{} blocks S_i U_i r r r> | <{} blocks S_i r r r U_i> | - | -", nb, nb);
     distinct_tokens_case(ctx, Algorithm::Patience, &req, &old, &new);
@@ -1557,6 +1567,37 @@ pub fn suite_text(ctx: &mut Ctx) {
         text_pair(ctx, &c, &old, &new, i);
     }
     lap(ctx, &mut t_lap, "random_pairs");
+    // PASTED lines: an old text of distinct lines, a new text in which a few of them are dropped and a few EXISTING lines are
+    // pasted in a second time elsewhere (nothing repeats in old, shared lines repeat in new), on both sides of the 100-token
+    // switch -- the shape in which an insertion can slide although "nothing repeats"
+    let npaste = if ctx.tier == Tier::Quick { 700u64 } else { 8000 };
+    for i in 0..npaste {
+        if !ctx.take() {
+            continue;
+        }
+        let mut rng = case_rng(ctx, 0x9a57e, i);
+        let n = if i % 3 == 0 { rng.range(6, 40) } else { rng.range(101, 140) };
+        let old: Vec<String> = (0..n).map(|k| format!("k{}\n", k)).collect();
+        let mut new = old.clone();
+        for _ in 0..rng.below(3) {
+            let at = rng.below(new.len());
+            new.remove(at);
+        }
+        for _ in 0..rng.range(1, 4) {
+            let src = rng.below(n);
+            // mostly right behind another copy of a neighbour (interleaved pastes), sometimes anywhere
+            let at = if rng.chance(2, 3) { (src + rng.below(6)).min(new.len()) } else { rng.below(new.len() + 1) };
+            new.insert(at, old[src].clone());
+        }
+        let c = TextCfg { kind: Kind::Lines, alg: [Algorithm::Patience, Algorithm::Patience, Algorithm::Myers, Algorithm::Lcs][(i % 4) as usize], nlt: None, dl: None };
+        ctx.count("text.pasted_line_cases");
+        let (o, nn) = (old.concat(), new.concat());
+        if i % 5 == 0 {
+            text_pair(ctx, &c, nn.as_bytes(), o.as_bytes(), i);
+        } else {
+            text_pair(ctx, &c, o.as_bytes(), nn.as_bytes(), i);
+        }
+    }
     // a terminator change (CR / CRLF / LF / none) right behind a shared head, on both sides of the 100-token switch
     for (j, (o, n)) in terminator_change_pairs(&[0, 2, 99, 130]).into_iter().enumerate() {
         if !ctx.take() {
